@@ -183,6 +183,7 @@ let () =
            | "patch" -> Api.api_patch (arg 1) (arg 2)
            | "diff" -> Api.api_diff (make_oracles (arg 3)) Api.generic_config (arg 1) (arg 2)
            | "nbdiff" -> Api.api_nbdiff (make_oracles (arg 3)) Api.nb_config (arg 1) (arg 2)
+           | "nbdiff_ign" -> Api.api_nbdiff_ign (make_oracles (arg 4)) (nat_of_int (as_int (arg 1))) (arg 2) (arg 3)
            | "check" -> Api.api_check (arg 1) (arg 2) (arg 3)
            | "splitlines" -> Api.api_splitlines (arg 1)
            | "pyeq" -> Api.api_pyeq (arg 1) (arg 2)
